@@ -26,6 +26,7 @@ def run(ctx):
     ctx.extra["traces_validated_against_impl"] = okc
 
 
+ANCHORS = ["src/ocean_science_utilities/filecache/cache_object.py", "src/ocean_science_utilities/filecache/filecache.py", "src/ocean_science_utilities/filecache/remote_resources.py"]
 READY = True
 LEVEL_TEXT = "Theorems (Coq, induction over ARBITRARY operation histories of the file-cache state machine, no length bound): the invariant (entries = cache-named files on disk, every cache file complete and holding bytes of its own resource, registered bytes <= configured size, time stamps below the clock) holds after every history from an empty directory and is preserved by every single operation; a returning request (distinct URIs) returns only registered, existing, complete files of the right resource that were used in this request and were not evicted by it; all-hit requests contact no resource; eviction is oldest-first and keeps any newer protected set that fits; foreign files are never touched; files not named by a request are unchanged or evicted. The model is tied to cache_object.py by running the extracted state machine and the real FileCache (instrumented resource, logical time stamps) on the same histories: exhaustive to length 2/3 over a 15-letter alphabet x 3 cache sizes x sequential/parallel plus random long histories, comparing return values, directory bytes, recency order, entry table, resources contacted and configured size after every operation, and evaluating the property's clauses on the real directory."
 LEVEL_NOTE = "Closed under the global context (no axioms): the model is over Z/nat/lists. Trusted: Coq kernel, extraction (ExtrOcamlBasic, no R), the harness's logical-time normalisation, md5 treated as injective, OS directory semantics (atomic rename). Not in the model: real thread interleavings of ThreadPool (parallel mode is run without raising faults and compared with the sequential model), real time-stamp ties, duplicate URIs inside one request, FileNotFoundError on externally deleted cache files."
